@@ -22,7 +22,13 @@ def gen_cases(seed, prof, n, backends, times, stats):
         except stagegen.Stuck as e:
             stats["generator_stuck"] += 1
             continue
-        out.append(dict(id=f"{prof}:{seed}:{i}", sp=sp, src=sp.src(), sx=sp.sx(), man_src=man.src(), man_sx=stagegen.plain_sx(man),
+        man_src = man.src()
+        if len(man_src) > 200_000:
+            # recursive macros that splice themselves twice per level: the expansion (and the compile time of either form)
+            # grows exponentially — one such case (deep:11:260, 2.5 MB) kept the compiler busy for > 30 min
+            stats["expansion_too_big_skipped"] += 1
+            continue
+        out.append(dict(id=f"{prof}:{seed}:{i}", sp=sp, src=sp.src(), sx=sp.sx(), man_src=man_src, man_sx=stagegen.plain_sx(man),
                         inputs=inputs, times=times, backends=backends, dup=False, nmacros=len(sp.macros)))
     return out
 
